@@ -430,6 +430,9 @@ ModifyContract(S, env, r) ==
         <<FeePairShapeOk(r.bidfee_rate, r.bidfee_acct), "bid_fee_pair">>,
         <<cfg.set, "no_contract_info">>,
         <<r.sender \in Range(cfg.executors), "unauthorized">>,
+        \* D6: a configuration change escrows nothing, so attached funds are refused
+        \* (the pinned commit accepted and kept them)
+        <<r.funds = <<>>, "funds">>,
         <<hasask => ~r.askattrs.some, "ask_required_attributes">>,
         <<RateChangeOk(hasask, cfg.askfee, r.askfee_rate), "ask_fee">>,
         <<hasbid => ~r.bidattrs.some, "bid_required_attributes">>,
